@@ -66,6 +66,13 @@ DictEnc(xs) ==
   IN LTaggedEnc(LN(Len(d))) \o Flatten([k \in 1..Len(d) |-> LTaggedEnc(d[k])])
      \o LTaggedEnc(LN(Len(xs))) \o Flatten([i \in 1..Len(xs) |-> LLE(LN(IndexOf(d, xs[i]) - 1), iw)])
 
+(* adaptive envelope: one byte naming the encoding, then that encoding's own layout;
+   specified for DELTA (0), FOR (1), DICT (3) and TAGGED (5) *)
+TaggedSeqEnc(xs) == Flatten([i \in 1..Len(xs) |-> LTaggedEnc(xs[i])])
+AdaptiveTypes == {0, 1, 3, 5}
+AdaptiveEnc(t, xs) == <<t>> \o (CASE t = 0 -> DeltaUEnc(xs) [] t = 1 -> ForEnc(xs)
+                                  [] t = 3 -> DictEnc(xs) [] OTHER -> TaggedSeqEnc(xs))
+
 WireCodecs == {"for", "for_batch", "rle", "rle_hdr", "delta_u", "delta_s", "group", "dict", "dict_with"}
 Enc(codec, xs) ==
   CASE codec \in {"for", "for_batch"} -> ForEnc(xs)
